@@ -285,8 +285,17 @@ class Resolver:
             return self._name_kinds(e.id, fn, mod)
         if isinstance(e, ast.Attribute):
             out = set()
+            missing = False
             for k in self.kinds(e.value, fn, mod):
-                out |= self.attr_kinds(k, e.attr)
+                ak = self.attr_kinds(k, e.attr)
+                if k[0] in ("inst", "class") and ak == {("umeth", e.attr)}:
+                    # a package class that has no such attribute at all (an abstract base: the subclasses define it):
+                    # the access raises AttributeError there and contributes no value
+                    missing = True
+                    continue
+                out |= ak
+            if not out and missing:
+                out = {("umeth", e.attr)}
             return out or {UNKNOWN}
         if isinstance(e, ast.Call):
             return self._call_kinds(e, fn, mod)
@@ -474,7 +483,8 @@ class Resolver:
             if ann.id in SIMPLE_ANN:
                 return {SIMPLE_ANN[ann.id]}
             r = self.module_name_kinds(mod, ann.id)
-            return {("inst", k[1]) for k in r if k[0] == "class"}
+            # an annotation naming an external class (argparse.Namespace, os.PathLike ...): an instance of it
+            return {("inst", k[1]) for k in r if k[0] == "class"} | {("extinst", k[1]) for k in r if k[0] == "ext"}
         if isinstance(ann, ast.Constant) and isinstance(ann.value, str):
             if ann.value in SIMPLE_ANN:
                 return {SIMPLE_ANN[ann.value]}
